@@ -76,6 +76,35 @@ def stack_prims():
     return o
 
 
+def skip_roles(body, head):
+    """the loop-carried locals of skip() by role, identified structurally (a rename must not matter):
+    nrounds / irounds = the user variables of type u64 assigned the constants 1 / 0 in the blocks that dominate the loop;
+    stack = the user variable of type Vec<Option<u64>>; error_msg = a &str constant assigned before the loop"""
+    cfg = mir.CFG(body)
+    user = dict(body['names'])
+    roles = {}
+    for bi, b in enumerate(body['blocks']):
+        if bi == head or not cfg.dominates(bi, head):
+            continue
+        for st in b['s']:
+            if st['k'] != 'assign' or st['p'].get('p') or st['p']['l'] not in user:
+                continue
+            l = st['p']['l']
+            ty = body['locals'][l].get('s')
+            r = st['r']
+            c = r.get('a', {}).get('const') if r.get('rv') == 'use' and isinstance(r.get('a'), dict) else None
+            if ty == 'u64' and c is not None and c.get('v') == 1 and 'nrounds' not in roles:
+                roles['nrounds'] = l
+            elif ty == 'u64' and c is not None and c.get('v') == 0 and 'irounds' not in roles:
+                roles['irounds'] = l
+            elif ty == '&str' and c is not None and 'error_msg' not in roles:
+                roles['error_msg'] = l
+    for l, nm in body['names']:
+        if body['locals'][l].get('s', '').replace(' ', '') in ('std::vec::Vec<std::option::Option<u64>>',) and 'stack' not in roles:
+            roles['stack'] = l
+    return roles
+
+
 def transfer(prog, counting=True):
     """one outer-loop iteration of skip from symbolic counters; returns (inst, outcomes, machine)"""
     inst = prog.one(SKIP)
@@ -87,9 +116,9 @@ def transfer(prog, counting=True):
     # the outermost head: the one whose loop contains the others == smallest block index among heads of the biggest SCC
     big = io.loop_heads(body)
     outer_head = big[0][1][0]
-    names = dict((n, l) for l, n in body['names'])
+    names = skip_roles(body, outer_head)
     if 'nrounds' not in names or 'irounds' not in names:
-        raise Abort('skip no longer has counters named nrounds / irounds (anchor moved)')
+        raise Abort('skip has no pair of u64 loop counters initialised to 1 and 0 before its loop (anchor moved)')
     ov = dict(l1.decoder_overrides())
     ov[l1.DEC + 'type_of'] = type_of_prim
     ov.update(stack_prims())
@@ -253,7 +282,7 @@ def arm_table(ctx, prog, label, counting=True):
             if inner_cut and strdef:
                 dd = [x for x in acc_decomp(o) if x['part'] == part]
                 arg = dd[0]['arg'] if dd else None
-                it_len = iter_len_field(m, o, [l for l, nm_ in inst['body']['names'] if nm_ == 'iter'])
+                it_len = iter_len_field(m, o, [l for l, nm_ in inst['body']['names'] if inst['body']['locals'][l].get('s', '').startswith(('minicbor::decode::decoder::BytesIter', 'minicbor::decode::decoder::StrIter'))])
                 if n != hl or len(payload) != 1 or payload[0] != arg:
                     ctx.violation('T-SKIP', '%s|payload|major%d' % (label, major), 'definite string head %s: the payload step reads %r, expected exactly the announced %r bytes' % (iv_str(part), payload, arg), where)
                 elif it_len != 'Some(0)':
